@@ -27,6 +27,9 @@ type valEnum struct {
 	// variant are outside the schema's value space.
 	discProp    string
 	variantKeys [][]string
+	// parameter groups (C09): the string domain of the location, and no empty arrays (§11)
+	strings          []string
+	requiredNonEmpty bool
 }
 
 func leafDomain(t reflect.Type) []reflect.Value {
@@ -95,6 +98,13 @@ func (e *valEnum) Enum(t reflect.Type, depth int) []reflect.Value {
 		}
 		return out
 	}
+	if t.Kind() == reflect.String && e.strings != nil {
+		var out []reflect.Value
+		for _, x := range e.strings {
+			out = append(out, reflect.ValueOf(x).Convert(t))
+		}
+		return out
+	}
 	if l := leafDomain(t); l != nil {
 		return l
 	}
@@ -122,6 +132,9 @@ func (e *valEnum) Enum(t reflect.Type, depth int) []reflect.Value {
 	case reflect.Slice:
 		ev := e.Enum(t.Elem(), depth+1)
 		out := []reflect.Value{reflect.Zero(t), reflect.MakeSlice(t, 0, 0)}
+		if e.requiredNonEmpty {
+			out = nil
+		}
 		for i, v := range ev {
 			if i >= 6 {
 				break
